@@ -294,7 +294,7 @@ def pr(t, expand=False, cs=False, tr=False, sub=False):
             a = '{%s}' % P(t[1], True)
         return '\\sqrt[%s]{%s}' % (a, P(t[2], False))
     if op == 'arr':
-        return '\\begin{array}{cc}%s&a\\\\b&%s\\end{array}' % (P(t[1], True), P(t[2], True))
+        return '\\begin{array}{c@{\\quad x~}c}%s&a\\\\b&%s\\end{array}' % (P(t[1], True), P(t[2], True))
     if op == 'jux':
         return '%s%s' % (P(t[1], sub), P(t[2], sub))
     raise ValueError(op)
